@@ -3606,7 +3606,10 @@ def d_pathstop( ctx ):
     def cells():
         for c, i, a, mode, t in itertools.product(( 5, None ), ( 1, None ), ( 3, None ), ( False, True, 1 ), ( True, False, 'symbolic' )):
             yield c, i, a, mode, t, { RES: { 'class': c, 'instance': i, 'attribute': a }, ATT: mode, TERM: ( { 'symbolic': 'foo' } if t == 'symbolic' else { 'attribute': 7 } if t else { 'element': 0 } ) }
-    if len( brk ) != 1 or lp.body.index( brk[0] ) != 0:
+    # ( ahead of it only bookkeeping that neither touches the accumulator nor calls anything: the test decides on the state the last segment left )
+    def harmless( st_ ):
+        return not any( isinstance( n_, ast.Call ) for n_ in ast.walk( st_ )) and RES not in names_in( st_ ) and not any( isinstance( n_, ( ast.Break, ast.Continue, ast.Return, ast.Raise )) for n_ in ast.walk( st_ ))
+    if len( brk ) != 1 or not all( harmless( st_ ) for st_ in lp.body[:lp.body.index( brk[0] )] ):
         res.bad( src, lp, 'early exit of the segment walk', 'exactly one early-exit test is expected at the top of the segment loop' )
     else:
         wrong = []
@@ -3657,6 +3660,38 @@ def d_pathstop( ctx ):
                      'a segment behind a complete address that names another class, instance or attribute than the resolved one is skipped: a Write Tag to [ TAG, attribute 99 ] is carried out on TAG and acknowledged, instead of being refused as an unknown destination' )
         else:
             res.ok( src, brk[0], 'a skipped segment is an element, or repeats the resolved address; one naming something else is refused ( %d cells )' % len( skipcells ))
+    # ---- the function as a whole, by value: its body is run on request paths against a stand-in symbol table holding the tags 'a', 'a.b'
+    #      ( a tag whose dotted name extends another tag's ) and 'd.e'.  The address returned is the addressed tag's: the LONGEST dotted name
+    #      that adjacent symbolic segments spell wins ( 'a.b' is not 'a' plus an unknown member ), an element in between ends the name
+    sym = { 'a': { 'class': 2, 'instance': 1, 'attribute': 1 }, 'a.b': { 'class': 2, 'instance': 1, 'attribute': 2 }, 'd.e': { 'class': 3, 'instance': 1, 'attribute': 1 } }
+    body_ = [ st for st in fn.body if not ( isinstance( st, ast.Expr ) and isinstance( st.value, ast.Constant )) ]
+    def whole( segs, mode ):
+        env = { fn.args.args[0].arg: { 'segment': [ dict( s_ ) for s_ in segs ] }, ATT: mode, 'symbol': { k_: dict( v_ ) for k_, v_ in sym.items() }, 'canonicalize_tag': lambda t: t.lower(),
+                'dict': dict, 'isinstance': isinstance, 'int': int, 'dict.fromkeys': dict.fromkeys }
+        try:
+            out = run_block( body_, env, ignore_calls=( 'log', ))
+        except NoFold as exc:
+            raise AnalysisError( 'resolve: the function body is not a decision fragment: %s' % exc )
+        return out.value if out.kind == 'return' else out.kind
+    S = lambda n: { 'symbolic': n }
+    table = (( [ S( 'A' ) ], True, ( 2, 1, 1 )), ( [ S( 'A' ), S( 'B' ) ], True, ( 2, 1, 2 )), ( [ S( 'a' ), S( 'b' ), { 'element': 3 } ], True, ( 2, 1, 2 )),
+              ( [ S( 'A' ), { 'element': 1 }, S( 'B' ) ], True, 'raise' ), ( [ S( 'A' ), S( 'C' ) ], True, 'raise' ), ( [ S( 'D' ), S( 'E' ) ], True, ( 3, 1, 1 )),
+              ( [ S( 'D' ) ], True, 'raise' ), ( [ { 'class': 5 }, { 'instance': 1 }, { 'attribute': 3 }, { 'element': 4 } ], True, ( 5, 1, 3 )),
+              ( [ S( 'A' ), { 'attribute': 99 } ], True, 'raise' ), ( [ S( 'A' ), { 'attribute': 1 }, { 'element': 4 } ], True, ( 2, 1, 1 )),
+              ( [ { 'class': 5 }, { 'instance': 1 } ], False, ( 5, 1, None )), ( [ { 'class': 5 }, { 'instance': 1 }, { 'element': 0 } ], 1, ( 5, 1, 1 )),
+              ( [ { 'class': 5 } ], False, 'raise' ), ( [ S( 'A' ), S( 'B' ) ], False, ( 2, 1, None )))
+    wrong = []
+    for segs, mode, want in table:
+        got = whole( segs, mode )
+        res.cells += 1
+        if got != want:
+            wrong.append(( segs, mode, got, want ))
+    if wrong:
+        segs, mode, got, want = wrong[0]
+        res.bad( src, fn, 'resolve( %s, attribute=%r ) with tags a, a.b, d.e -> %r, specified %r ( %d of %d paths differ )' % ( [ list( s_.items())[0] for s_ in segs ], mode, got, want, len( wrong ), len( table )),
+                 'a configured tag whose dotted name begins with the name of another tag cannot be addressed ( every request for it is answered 0x05 ), or a request is served from another tag than the one its path names' )
+    else:
+        res.ok( src, fn, 'resolve returns the address of the tag ( or object ) the path names on all %d sample paths ( longest dotted name, elements, defaults, contradictions )' % len( table ))
     # default application after the loop
     dfl = [ s for s in fn.body if isinstance( s, ast.If ) and any( isinstance( b, ast.Assign ) and pmatch( b.targets[0], "%s['attribute']" % RES ) is not None and dotted( b.value ) == ATT for b in s.body ) ]
     if len( dfl ) != 1:
